@@ -165,6 +165,51 @@ def run(env, tier, seed, broken=None):
     for _ in range(20000 if tier == 'quick' else 400000):
         k = rng.randint(1, 8)
         ntexts.append([rng.choice(marks) if rng.random() < 0.45 else rng.choice(pool) for _ in range(k)])
+    # x/text deviates from UAX #15 on two kinds of exotic text (recorded findings, probed below): it inserts U+034F after
+    # 30 consecutive "non-starters" (counting backward-combining class-0 characters such as U+09BE or Hangul V/T jamo, and
+    # the trailing marks of a decomposition), and its composition pass lets a mark combine across such a class-0
+    # character.  The comparison with x/text therefore ranges over the texts on which the two are meant to agree.
+    sstab = {int(a): (int(b), int(c)) for a, b, c in _re.findall(r'\((\d+),(\d+),(\d+)\)', gen.split('gen_ss')[1])}
+    cccs = [(int(a), int(b), int(c)) for a, b, c in _re.findall(r'\((\d+),(\d+),(\d+)\)', gen.split('gen_ccc')[1].split('gen_comp')[0])]
+    cccmap = {}
+    for lo, hi, k in cccs:
+        for c in range(lo, hi + 1):
+            cccmap[c] = k
+
+    def agreed_domain(t):
+        ss, bc0 = 0, False
+        for c in t:
+            l, tr = sstab.get(c, (0, 0))
+            if 0xAC00 <= c <= 0xD7A3:
+                l, tr = 0, (1 if (c - 0xAC00) % 28 == 0 else 2)
+            if l == 0:
+                ss, bc0 = tr, False
+                continue
+            ss += l
+            if ss > 30:
+                return False
+            if cccmap.get(c, 0) == 0:
+                bc0 = True
+            elif bc0:
+                return False
+        return True
+    ssl = [c for c, (l, t) in sstab.items() if l > 0]
+    sst = [c for c, (l, t) in sstab.items() if l == 0 and t > 0]
+    for m in [0x301, 0x323, 0x334, 0x9be, 0x9bc, 0x9cd, 0x9d7, 0x1161, 0x11a8, 0xff9e, 0x3099, 0x345, 0x94d]:
+        for base in [[], [0x61], [0x995], [0x1e0b], [0xac00], [0xac01], [0x1100], [0x212b], [0x9cb], [0xfb2c]]:
+            for k in (25, 26, 27, 28, 29, 30):
+                ntexts.append(base + [m] * k)
+    for _ in range(3000 if tier == 'quick' else 60000):
+        t = []
+        for _ in range(rng.randint(1, 4)):
+            if rng.random() < 0.7:
+                t.append(rng.choice(sst + [0x61, 0x995, 0xac00, 0xac01]))
+            kind = rng.random() < 0.75      # a run of marks of non-zero class, or a run of backward-combining class-0 characters
+            pool_run = [c for c in ssl if (cccmap.get(c, 0) != 0) == kind]
+            t += [rng.choice(pool_run) if rng.random() < 0.9 else (0x301 if kind else 0x9be) for _ in range(rng.randint(3, 28))]
+        ntexts.append(t)
+    n_all = len(ntexts)
+    ntexts = [t for t in ntexts if agreed_domain(t)]
     if tier == 'thorough':
         ntexts += [[c] for c in range(0x110000) if not 0xD800 <= c <= 0xDFFF]
     gn = env.run_godump('nfc', [{'id': 'n%d' % i, 'cps': t} for i, t in enumerate(ntexts)])
@@ -179,6 +224,18 @@ def run(env, tier, seed, broken=None):
         if g != ml and nbad < 5:
             nbad += 1
             mism.append({'case': None, 'reason': 'NFC of %s: model %s, x/text %s' % (t, ml, g)})
-    return {'evaluations': len(cases) + len(bits) + len(ntexts), 'nfc_texts': len(ntexts), 'nfc_texts_changed_by_normalisation': changed, 'distinct_nontrivial': len(nontriv), 'mismatches': mism,
+    # the two recorded deviations of the linked x/text from UAX #15, through the real binary (KNOWN_FINDINGS.txt lists exactly
+    # these inputs): the printed text must be canonically equivalent to the string (same NFD) and be in NFC
+    probes = [{'id': 'probe-nfc-31-marks', 'src': '%s "a%s";\n' % (PRINT, '\u0301' * 31)},
+              {'id': 'probe-nfc-mark-across-backward-combiner', 'src': '%s "\u00f4\u09be\u1bf3\u0301";\n' % PRINT}]
+    rp = env.run_impl([core.file_case(c['id'], c['src'], '')[0] for c in probes])
+    for c in probes:
+        r = rp[c['id']][0]
+        lit = c['src'].split('"')[1]
+        out = r['stdout'].decode('utf-8', 'replace').rstrip('\n')
+        if unicodedata.normalize('NFD', out) != unicodedata.normalize('NFD', lit) or out != unicodedata.normalize('NFC', lit):
+            mism.append({'case': c, 'reason': 'printed text %r is not the NFC form of the string / not canonically equivalent to it (NFC: %r)' % (
+                [hex(ord(x)) for x in out][:40], [hex(ord(x)) for x in unicodedata.normalize('NFC', lit)][:40])})
+    return {'evaluations': len(cases) + len(bits) + len(ntexts) + len(probes), 'nfc_texts': len(ntexts), 'nfc_texts_outside_agreed_domain_dropped': n_all - len(ntexts), 'nfc_texts_changed_by_normalisation': changed, 'distinct_nontrivial': len(nontriv), 'mismatches': mism,
             'rule': '%d doubles (boundaries, powers of ten +-1ulp, random bit patterns, random integers and decimals) printed alone, spliced by +, and nested; bitwise results; %d strings (every Bangla code point with a decomposition in both forms, combining marks, random mixtures) alone, in an array, as a property, concatenated; nil/booleans/containers/functions; model text_num against Go fmt via goref; non-trivial = distinct outputs' % (len(doubles), len(smeta)),
             'samples': [cases[len(corpus_cases('C15')) + 60]['src'], list(smeta.values())[40]]}
